@@ -230,7 +230,9 @@ UNBOUNDED_OK = {"swap_mutex_fair", "swap_mutex_unfair", "swap_sem_fair", "swap_s
                 "mpmc_close_vs_first_send_poll_cap0", "mpmc_close_vs_first_send_poll_cap1",
                 "timer_expire_vs_drop", "event_set_vs_drop", "sem_release_vs_drop", "mutex_unlock_vs_drop", "mpmc_send_vs_drop_recv",
                 "event_set_vs_first_poll", "mutex_fair_newcomer", "mutex_is_locked_contended", "mpmc_debug_vs_push_exclusive",
-                "mpmc_barger_vs_notified", "mpmc_try_send_race_cap1", "mpmc_try_send_race_cap2"}
+                "mpmc_barger_vs_notified", "mpmc_try_send_race_cap1", "mpmc_try_send_race_cap2",
+                "state_close_vs_first_recv_poll", "oneshot_close_vs_first_recv_poll", "bcast_close_vs_first_recv_poll", "mpmc_close_vs_first_recv_poll",
+                "mutex_is_locked_handover_fair", "mutex_is_locked_handover_unfair"}
 BIG = {"mpmc_2p1c_cap0", "mpmc_2p1c_cap1", "mpmc_2p1c_cap0_seq", "mutex_cancel_in_queue_fair", "mutex_cancel_in_queue_unfair", "state_followers"}
 
 
